@@ -446,6 +446,16 @@ func runC08(c *rt.Ctx) {
 	c.Require("generated-text", 100000)
 	c.Require("text-no-number", 1)
 
+	{ // call histories: valid texts colliding under weak checksums, parsed back to back
+		var texts []string
+		for n := 0; n < 200000; n++ {
+			for _, u := range []string{"", "B", "kB", "KiB", " MB", "GiB"} {
+				texts = append(texts, fmt.Sprint(n)+u)
+			}
+		}
+		collisionHistories(c, texts, 300, 200, func(w *rt.W, t string) { c08Text(w, t) })
+	}
+
 	nBytes := c.Pick(200000, 5000000)
 	c.Parallel("bytes", 0, func(w *rt.W) {
 		if w.Shard == 0 {
